@@ -324,8 +324,10 @@ func (tsc *TransportServerConfiguration) IsEqual(resource Resource) bool {
 }
 
 func compareObjectMetas(meta1 *metav1.ObjectMeta, meta2 *metav1.ObjectMeta) bool {
+	// the UID tells a re-created object (same name, generation starting again at 1) from the one it replaces
 	return meta1.Namespace == meta2.Namespace &&
 		meta1.Name == meta2.Name &&
+		meta1.UID == meta2.UID &&
 		meta1.Generation == meta2.Generation
 }
 
